@@ -271,7 +271,9 @@ int main(int argc, char **argv)
             }
             w.end_arr();
             g_logCap = (size_t)-1;
-            w.kv("ncalls", calls); w.kv("atend", opn2_atEnd(dev)); w.kv("trunc", trunc);
+            long long ne = 0;
+            for(size_t q = playStart; q < glog_.size(); ++q) if(glog_[q].k == 'e') ++ne;
+            w.kv("ncalls", calls); w.kv("ne", ne); w.kv("atend", opn2_atEnd(dev)); w.kv("trunc", trunc);
         }
         else if(e == "PlayAudio")
         {
